@@ -953,6 +953,28 @@ def conform (kw : Kw) : List Tok → List Val → Bool
          | .ok d => canonical d.kind v
          | .error _ => false) && conform kw ts vs'
 
+/-- a pre-processed token text that both `pack` and `unpack` read as a plain `name[:]length` token (or a bare length):
+    not empty, no `=value`, not a keyword name, not a literal, its name is not a keyword, and a keyword length is not
+    itself a number (`int('1_0')` would win in `tokenparser` but not in `parse_name_length_token`). -/
+def plainText (kw : Kw) (t : Str) : Bool :=
+  !t.isEmpty && !t.contains '=' && !kw.keys.contains t && (matchLiteral t).isNone && !kw.has (parseSingle t).1 &&
+  (match matchNameInt t, matchNameKwarg t with
+   | none, some (_, k) => (pyInt? k).isNone
+   | _, _ => true)
+
+mutual
+  /-- the token texts written in a bracket tree -/
+  def BItem.atoms : BItem → List Str
+    | .atom s => [s]
+    | .group _ items => BItem.atomsList items
+  def BItem.atomsList : List BItem → List Str
+    | [] => []
+    | x :: xs => x.atoms ++ BItem.atomsList xs
+end
+
+/-- a token text that `preprocess_tokens` passes through unchanged: no factor, not a struct-style group -/
+def simpleText (t : Str) : Bool := !t.isEmpty && !t.contains '*' && (matchStruct t).isNone
+
 /-- abstract syntax of formats above the token level. -/
 inductive Fmt where
   | tok (t : Tok)
